@@ -201,10 +201,11 @@ pub struct SigCase {
 pub fn check_case(case: &MapCase, st: &mut Stats) -> Check {
     let model = Model::new(&case.file);
     let bytes = case.bytes();
-    let m = mapper(&bytes, false)?;
+    let variants = mapper_variants(&bytes)?;
     let buf = write_cache(&bytes)?;
     let cache = parse_cache(&buf)?;
-    let rs: [&dyn Retracer; 2] = [&m, &cache];
+    let mut rs: Vec<&dyn Retracer> = variants.iter().map(|(m, _)| m as &dyn Retracer).collect();
+    rs.push(&cache);
     let known: Vec<String> = model.classes.keys().map(|s| s.to_string()).collect();
     let lookup = |c: &str| model.class(c).map(|s| s.to_string());
     let descs: Vec<Desc> = sample_n(&descriptor::desc(&known), case.key ^ 0xc16, 12);
